@@ -260,7 +260,8 @@ def _build_opm(c):
     sv = Orbit(x, date, "cartesian", _frame(fr), Kepler()) if c.integer("orbit") else StateVector(x, date, "cartesian", _frame(fr))
     kw = {}
     if c.integer("named"):
-        sv.name, sv.cospar_id = "SAT-1", "2020-001A"
+        # (names with blanks, digits and brackets of their own: only a number may be followed by a [unit])
+        sv.name, sv.cospar_id = ["SAT-1", "SAT [X] 1", "IRIDIUM 33 [-]", "OBJECT (B) 2"][c.integer("k") % 4], "2020-001A"
     else:
         kw = {"name": "OTHER", "cospar_id": "1998-067A"}
     cov = c.integer("cov")
@@ -270,7 +271,7 @@ def _build_opm(c):
     _maneuvers(sv, MAN_SPECS[c.integer("man")], k)
     ud = c.integer("ud")
     if ud:
-        sv._data["ccsds_user_defined"] = {"FOO": "bar"} if ud == 1 else {"EARTH_MODEL": "WGS-84", "EARTH_RADIUS": "6378.137", "MASS": "1250.5", "A_B_C": "x y"}
+        sv._data["ccsds_user_defined"] = {"FOO": "bar"} if ud == 1 else {"EARTH_MODEL": "WGS-84", "EARTH_RADIUS": "6378.137", "MASS": "1250.5", "A_B_C": "x y", "NOTE": "mass [kg] unknown"}
     return sv, kw
 
 
@@ -324,7 +325,7 @@ def _(c):
     _attach_cov(orb, {0: 0, 1: 1, 2: 2, 3: 3}[cov], k)
     ud = c.integer("ud")
     if ud:
-        orb._data["ccsds_user_defined"] = {"FOO": "bar"} if ud == 1 else {"EARTH_MODEL": "WGS-84", "EARTH_RADIUS": "6378.137", "MASS": "1250.5", "A_B_C": "x y"}
+        orb._data["ccsds_user_defined"] = {"FOO": "bar"} if ud == 1 else {"EARTH_MODEL": "WGS-84", "EARTH_RADIUS": "6378.137", "MASS": "1250.5", "A_B_C": "x y", "NOTE": "mass [kg] unknown"}
 
     def compare(cmp, a, b):
         cmp.check("epoch", _same_date(a.date, b.date), f"{a.date!r} {b.date!r}")
